@@ -280,11 +280,19 @@ static const char *known_trigger(const std::string &raw)
 	// F6 read.cpp:667/700/4041/4068/5858/5891/6536/6569/9826: -add_logk without a name (or -add_constant without a
 	//    number) leaves an add_logk entry whose name is NULL; tidy.cpp:593 builds a std::string from it ->
 	//    std::logic_error escapes through Run*/LoadDatabase*
+	// F8 tidy.cpp:4435-4438 ss_prep takes components [0] and [1] of every solid solution; SOLID_SOLUTIONS_RAW/_MODIFY
+	//    can create one with a single component (no validation) -> read past the vector when the temperature changes
 	int kw = Keywords::KEY_NONE;
+	int ss_comps = -1;                 // components seen in the current -solid_solution section of a RAW/MODIFY block
+	auto close_ss = [&]() { if (ss_comps >= 0 && ss_comps < 2) hit = "ss_modify_single_component"; ss_comps = -1; };
 	for_each_line(text, [&](const std::vector<std::string> &toks) {
 		const std::string &tok = toks[0];
 		int k = Keywords::Keyword_search(tok);
-		if (k != Keywords::KEY_NONE) { kw = k; return; }
+		if (k != Keywords::KEY_NONE) { close_ss(); kw = k; return; }
+		if (kw == Keywords::KEY_SOLID_SOLUTIONS_RAW || kw == Keywords::KEY_SOLID_SOLUTIONS_MODIFY) {
+			if (tok[0] == '-' ? (tok.size() >= 2 && is_prefix_of(tok.substr(1), "solid_solution")) : tok == "solid_solution") { close_ss(); ss_comps = 0; }
+			else if (ss_comps >= 0 && (tok[0] == '-' ? (tok.size() >= 2 && is_prefix_of(tok.substr(1), "components")) : (tok == "component" || tok == "components"))) ss_comps++;
+		}
 		if (kw == Keywords::KEY_SOLID_SOLUTIONS) {
 			for (const char *o : SS_P_OPTS) {
 				if (tok[0] == '-' ? is_prefix_of(tok.substr(1), o) : tok == o) hit = "ss_parameter_options_dump";
@@ -304,6 +312,7 @@ static const char *known_trigger(const std::string &raw)
 			}
 		}
 	});
+	close_ss();
 	return hit;
 }
 
@@ -312,27 +321,32 @@ static const char *known_trigger(const std::string &raw)
 static const char *known_trigger_db(const std::string &text)
 {
 	if (g_no_known_filter) return 0;
-	bool has_h = false, has_e = false;
-	for (size_t i = 0; i < text.size(); i++) {
-		if (text[i] != '=') continue;
-		size_t j = i + 1;
-		while (j < text.size() && (text[j] == ' ' || text[j] == '\t')) j++;
-		size_t a = j;
-		while (j < text.size() && !(text[j] == ' ' || text[j] == '\t' || text[j] == '\n' || text[j] == '\r' || text[j] == ';' || text[j] == '#')) j++;
-		std::string t = text.substr(a, j - a);
-		if (t == "H+" || t == "H3O+") has_h = true;
-		if (t == "e-") has_e = true;
+	// conservative: any mention of H+ / H3O+ counts as "defined"; e- counts as defined only by the exact line "e- = e-"
+	bool has_h = contains(text, "H+") || contains(text, "H3O+"), has_e = false;
+	size_t i = 0, n = text.size();
+	while (i < n) {
+		std::vector<std::string> toks;
+		while (i < n && text[i] != '\n' && text[i] != ';' && text[i] != '#') {
+			while (i < n && (text[i] == ' ' || text[i] == '\t' || text[i] == '\r')) i++;
+			size_t a = i;
+			while (i < n && !(text[i] == ' ' || text[i] == '\t' || text[i] == '\r' || text[i] == '\n' || text[i] == ';' || text[i] == '#')) i++;
+			if (i > a) toks.push_back(text.substr(a, i - a));
+		}
+		if (i < n && text[i] == '#') while (i < n && text[i] != '\n') i++;
+		i++;
+		if (toks.size() == 3 && toks[0] == "e-" && toks[1] == "=" && toks[2] == "e-") has_e = true;
 	}
 	return has_h && !has_e ? "database_without_electron" : 0;
 }
 
 // F2 Phreeqc::unnumbered_solutions (SOLUTION_SPREAD rows without a number) is cleared only by tidy_solutions: when
 //    a run stops with input errors before that, the parked solutions survive clean_up()/LoadDatabase and the next
-//    run uses them with dangling string pointers (use-after-free, SIGSEGV in the release build).  The trigger is
-//    recognised from the engine state after a failed call; the instance is then replaced instead of reloaded.
+//    run uses them with dangling string pointers (use-after-free, SIGSEGV in the release build).
 // F4 the seven Rxn_<entity>_mix_map members (SOLUTION_MIX, EXCHANGE_MIX, ...) are emptied only by do_mixes() at the
 //    end of a simulation; clean_up() forgets them, so after a run that stopped early a *valid* LoadDatabase fails
-//    ("Solution n not found in mix_cxxSolutions") or mixes stale entities.  Recognised from the state as well.
+//    ("Solution n not found in mix_cxxSolutions") or mixes stale entities.
+//    Both triggers are recognised from the engine state after a failed call; the instance is then replaced
+//    instead of reloaded (counted).
 static const char *known_state_after_failure(FI *I)
 {
 	if (g_no_known_filter) return 0;
@@ -346,8 +360,9 @@ static const char *known_state_after_failure(FI *I)
 // F5 read.cpp:106-112 keeps a pointer into sformatf's buffer (error_string) across calls that may realloc it (the
 //    buffer restarts at 256 bytes with every LoadDatabase): heap-use-after-free when a line longer than the buffer
 //    is echoed while lines without a keyword are skipped.  Excluded by construction: the harness' database starts
-//    with a DATABASE line (ignored inside a database) carrying a 16 KB comment, which grows the buffer beyond every input length before the input is read (and the
-//    same line is put in front of fuzzed database texts).  Strict replays use the plain texts.
+//    with a DATABASE line (ignored inside a database) carrying a 16 KB comment, which grows the buffer beyond every
+//    input length before the input is read (the same line is put in front of fuzzed database texts).  Strict
+//    replays use the plain texts.
 static std::string pregrow_line()
 {
 	return g_no_known_filter ? std::string() : "DATABASE #" + std::string(16300, 'x') + "\n";
